@@ -26,7 +26,10 @@ class MessageHead(packet.Packet):
 
         if not self.payload:
             raise formats.VerifyError('Message without payload')
-        if isinstance(self.payload, packet.Raw):
+        if (isinstance(self.payload, packet.Raw)
+                and self.guess_payload_class(b'') is not packet.Raw):
+            # a known message type which failed to decode is incomplete,
+            # an unknown message type is left for the receiver to reject
             raise formats.VerifyError('Message with improper payload')
 
         packet.Packet.post_dissection(self, pkt)
